@@ -63,7 +63,10 @@ func peerGoroutines() []string {
 	}
 	var ids []string
 	for _, g := range bytes.Split(buf, []byte("\n\n")) {
-		if !bytes.Contains(g, []byte("github.com/btcsuite/btcd/peer.")) {
+		// any frame of the peer package or of a sub-package of it: the census does
+		// not depend on how many goroutines a peer uses or what they are called
+		if !bytes.Contains(g, []byte("github.com/btcsuite/btcd/peer.")) &&
+			!bytes.Contains(g, []byte("github.com/btcsuite/btcd/peer/")) {
 			continue
 		}
 		// "goroutine 123 [chan send]:"
